@@ -22,6 +22,15 @@ for d in seeded/*/; do
   for id in $ids; do
     out=$(VERIF_REPO=$WT ./check $id --no-evidence 2>&1); rc=$?
     sig=$(echo "$out" | grep -E '^  \[' | head -1 | cut -c1-120)
+    if [ "${HARVEST:-}" = 1 ]; then
+      # keep up to two shrunk failing cases per seed as regression inputs of that check
+      n=0
+      for rp in $(echo "$out" | sed -n 's/^VIOLATION property=[A-Z0-9]* replay=//p' | head -2); do
+        [ -f "$rp" ] || continue
+        case $rp in *.json) ;; *) continue;; esac
+        n=$((n+1)); mkdir -p regress/$id; cp "$rp" regress/$id/seed-$name-$n.json
+      done
+    fi
     if [ $rc = 1 ]; then res="$res $id:CAUGHT"; else res="$res $id:MISSED(rc=$rc)"; fi
   done
   echo "$name$res |$sig"
